@@ -457,7 +457,7 @@ pub fn main(args: &Args) -> ! {
     let mut rep = Report::new("C04", args, "fault_enumeration");
     let thorough = args.tier == Tier::Thorough;
     let dl = deadline(if thorough { 1200 } else { 45 });
-    rep.rule = "E3 over the real endpoints: (a) every emitted datagram of each baseline re-delivered after each delay of a delay list (and all pairs in thorough) with forced key updates, oracle: per frame type frames processed <= frames decoded on the wire; (b) every emitted datagram x every mutation (bit flips of the leading 24 and trailing 16 bytes, truncations, extensions) injected after the original, differential oracle against the uninjected run; (c) stateless-reset, Version Negotiation and Retry probes at every step index. Non-trivial = the injected/duplicated datagram was actually delivered; distinct = distinct (kind, index, mutation) tuples by hash of the resulting trace.".into();
+    rep.rule = "E3 over the real endpoints: (a) every emitted datagram of each baseline re-delivered after each delay of a delay list (and all pairs in thorough) with forced key updates, oracle: per frame type frames processed <= frames decoded on the wire; (b) every emitted datagram x every mutation (every bit of the first byte, bit flips in the leading 24 (thorough: 32, all bits) and trailing 16 bytes, truncations around every header boundary, extensions) injected after the original, differential oracle against the uninjected run; (c) stateless-reset, Version Negotiation and Retry probes at every step index. Non-trivial = the injected/duplicated datagram was actually delivered; distinct = distinct (kind, index, mutation) tuples by hash of the resulting trace.".into();
 
     // (a) duplicates
     let scripts: Vec<(&'static str, Vec<(u64, Op)>)> = vec![
@@ -509,24 +509,30 @@ pub fn main(args: &Args) -> ! {
 
     // (b) corruptions, differential
     let mut muts: Vec<InjKind> = vec![];
-    for pos in 0..24 {
-        for bit in [0x01u8, 0x80, 0x10] {
+    // every bit of the first byte (form, fixed bit, spin, reserved, key phase, packet number length / type)
+    for bit in 0..8 {
+        muts.push(InjKind::Flip { pos: 0, mask: 1 << bit });
+    }
+    let bits: &[u8] = if thorough { &[0x01, 0x02, 0x04, 0x08, 0x10, 0x20, 0x40, 0x80] } else { &[0x01, 0x80, 0x10] };
+    for pos in 1..(if thorough { 32 } else { 24 }) {
+        for &bit in bits {
             muts.push(InjKind::Flip { pos, mask: bit });
         }
     }
     for pos in 1..=16 {
-        for bit in [0x01u8, 0x80] {
+        for &bit in if thorough { bits } else { &[0x01u8, 0x80][..] } {
             muts.push(InjKind::Flip { pos: -pos, mask: bit });
         }
     }
-    for len in [0usize, 1, 5, 20, 21, 22, 40, 100, 600, 1199] {
+    let mut lens: Vec<usize> = vec![0, 1, 5, 9, 10, 20, 21, 22, 24, 25, 26, 27, 28, 29, 30, 40, 100, 600, 1199];
+    if thorough {
+        lens = (0..=64).chain([100, 600, 1199]).collect();
+    }
+    for len in lens {
         muts.push(InjKind::Truncate { len });
     }
     muts.push(InjKind::Extend { n: 1 });
     muts.push(InjKind::Extend { n: 16 });
-    if !thorough {
-        muts = muts.into_iter().step_by(3).collect();
-    }
     let mut inj_cases = vec![];
     let mut baselines = BTreeMap::new();
     for cfg in ["default", "retry"] {
